@@ -92,7 +92,7 @@ stats! {
     // fault kinds (fired)
     f_layout_runs, f_noise_alloc, f_dtor_panic, f_dtor_script, f_script_action, f_nested_collection, f_elided_unadopt,
     f_unmatched_unadopt, f_partial_recording, f_same_handle_self_adopt, f_weak_inside_value, f_weak_upgrade_in_dtor,
-    p_raw_payload_cases, op_getmut_in_dtor, p_destroyed_in_full_during_unwind, p_quarantine_given_back_runs, f_clone_impl_releases_handle, op_clone_from, f_panic_payload_carries_handles, op_weakraw, f_weak_raw_round_trip_dead, op_new_uninit, op_assume_init, f_adopt_before_assume_init, f_weak_upgrade_dying_peer_none, f_consuming_on_adopted, f_dead_handle_drop_in_dtor, f_dead_handle_clone_in_dtor,
+    p_raw_payload_cases, f_log_backend_drops_weak, op_getmut_in_dtor, p_destroyed_in_full_during_unwind, p_quarantine_given_back_runs, f_clone_impl_releases_handle, op_clone_from, f_panic_payload_carries_handles, op_weakraw, f_weak_raw_round_trip_dead, op_new_uninit, op_assume_init, f_adopt_before_assume_init, f_weak_upgrade_dying_peer_none, f_consuming_on_adopted, f_dead_handle_drop_in_dtor, f_dead_handle_clone_in_dtor,
     f_small_stack, f_self_adopt_clone, f_script_combos, f_log_trace_runs, f_clone_panic, f_dtor_panic_early, f_addr_reuse_runs,
     // probes
     p_path_plain, p_path_zero_links, p_path_cycle, p_cycle_members, p_cycle_survivors, p_trace_calls, p_trace_pops,
